@@ -27,6 +27,14 @@ def _near(a, b, atol=ATOL, rtol=0.0):
     return abs(a - b) <= atol + rtol * abs(b)
 
 
+def mul(T, f):
+    """T*f with the value the PRODUCT has when the running product has left the double range: (overflowed)*0 = 0 and
+    (underflowed)*inf = inf (floating point gives nan for both)."""
+    if (T == math.inf and f == 0) or (T == 0 and f == math.inf):
+        return f
+    return T * f
+
+
 def ref_history(cfg, x, etas=None, lams=None):
     test = cfg["test"]
     u, t = cfg["u"], cfg["t"]
@@ -42,13 +50,13 @@ def ref_history(cfg, x, etas=None, lams=None):
             if den == 0:
                 P = math.inf
             else:
-                P *= (t + g) / den
+                P = mul(P, (t + g) / den)
             out.append(("eq", min(1.0, P)))
         return out
     if test == "kaplan_wald":
         T = 1.0
         for xi in x:
-            T *= (1 - g) * xi / t + g
+            T = mul(T, (1 - g) * xi / t + g)
             out.append(("eq", p_of(T)))
         return out
 
@@ -83,7 +91,7 @@ def ref_history(cfg, x, etas=None, lams=None):
         if fac is not None and fac != fac:
             fac = None
         if defined and fac is not None:
-            T = T * fac
+            T = mul(T, fac)
             if T != T:
                 defined = False
         else:
@@ -110,7 +118,12 @@ def ref_history(cfg, x, etas=None, lams=None):
                 acc.append(0.0)
             if test != "kaplan_kolmogorov" and mu > u:
                 acc.append(1.0)
-            if not acc:
+            clear_excess = exceeds_now and (S + xi) - N * tt > 1e-9 * max(1.0, N * tt)
+            if j == n and clear_excess and test in ("alpha_mart", "betting_mart", "wald_sprt"):
+                # the LAST observation takes the total above N t: the documented final-sample rule applies, p = 0
+                # (at an earlier index the code, like the formula, only learns of it at the next draw: either is accepted)
+                out.append(("eq", 0.0))
+            elif not acc:
                 out.append(("skip", "undefined"))
             elif len(acc) == 1 and not boundary and not exceeds_now:
                 out.append(("eq", acc[0]))
